@@ -392,6 +392,24 @@ def run_roundtrip(c) -> dict:
             f["C14:kidless-jwks-import-differs"] = f"importing a JWKS of {len(tps)} entries without kid members gave keys with kids {got2!r}; expected the thumbprints {tps!r}"
     except Exception as e:
         f[f"C14:kidless-jwks-import-raises:{type(e).__name__}"] = str(e)
+    # the exported document belongs to the caller (who may, say, prefix the kids before publishing it): the set itself is unchanged
+    try:
+        kids = eff_kids(c)
+        for doc in (privset.as_dict(private=True), privset.as_dict()):
+            for e in doc["keys"]:
+                e["kid"] = "published-" + str(e.get("kid"))
+                e.pop("k", None), e.pop("x", None), e.pop("n", None)
+        now = [k.kid for k in privset.keys]
+        if now != kids:
+            f["C14:exported-document-aliases-the-set"] = f"after the caller edited the exported JWKS the set's kids are {now!r} (were {kids!r})"
+        else:
+            for kid in kids:
+                privset.get_by_kid(kid)
+            back3 = KeySet.import_key_set(json.loads(json.dumps(privset.as_dict(private=True))))
+            if sorted(str(k.kid) for k in back3.keys) != sorted(kids):
+                f["C14:exported-document-aliases-the-set"] = "a second export after the caller edited the first one differs"
+    except Exception as e:
+        f[f"C14:exported-document-aliases-the-set:{type(e).__name__}"] = f"after the caller edited an exported JWKS: {type(e).__name__}: {e}"
     return f
 
 
